@@ -32,7 +32,8 @@ def collect (j : Json) : Defs :=
     tdefs := mods.flatMap fun s => (jarr s "typedefs").map fun d =>
       (q (jstr s "name") (jstr d "n"), if builtin (jstr d "base") then [] else [jstr d "base"]),
     groups := mods.flatMap fun s => (jarr s "groupings").map fun d => (q (jstr s "name") (jstr d "n"), (jarr d "uses").map strOf),
-    imports := mods.map fun s => (jstr s "name", imp (jstr s "name")),
+    -- `ProcessModuleIncludes`: the imports written in the submodules a module includes are imports of the module
+    imports := mods.map fun s => (jstr s "name", imp (jstr s "name") ++ (jarr s "subs").flatMap fun u => (jarr u "imports").map strOf),
     includes := mods.flatMap fun s =>
       (jstr s "name", (jarr s "includes").map strOf) :: (jarr s "subs").map fun u => (jstr u "name", (jarr u "includes").map strOf),
     usedTypes := mods.flatMap fun s => (jarr s "leaves").filterMap fun l =>
